@@ -396,3 +396,44 @@ def check_c10(tier, t0):
 
 
 CHECKS["C10"] = check_c10
+
+
+# ------------------------------------------------------------------------------------------------
+# C11  dates and times
+# ------------------------------------------------------------------------------------------------
+def check_c11(tier, t0):
+    from common import run_tlc, tlc_require_clean, extract_json_lines, workdir
+    wd = workdir("C11-%s" % tier)
+    mc = run_tlc("Calendar.tla", "Calendar.cfg", wd, timeout=600)
+    if mc["violated"]:
+        raise ToolError("design-level invariant %s violated in Calendar.tla" % mc["violated"])
+    tlc_require_clean(mc, "Calendar")
+    table = os.path.join(wd, "table.ndjson")
+    extract_json_lines(mc["out_path"], table)
+    os.remove(mc["out_path"])
+    out = os.path.join(wd, "out.json")
+    stride = "1" if tier == "thorough" else "10"
+    run_harness(["datetime", "--table", table, "--out", out, "--stride", stride, "--full", "30,32A,13D,60F"])
+    s = json.load(open(out))
+    vio = [{"sig": v["sig"], "replay": v["replay"]} for v in s["violations"]]
+    log("[C11] %d parses over %d date/time-bearing field types, %d valid dates seen, %d violation classes" %
+        (s["evaluated"], len(s["fields"]), s["valid_dates_seen"], len(vio)))
+    cov = {
+        "states": mc["distinct"], "transitions": mc["generated"], "traces_validated_against_impl": 0,
+        "evaluations": s["evaluated"], "distinct_nontrivial": s["valid_dates_seen"],
+        "rule": "all 1,000,000 six-digit strings through fields 30, 32A, 13D, 60F (every %s-th string through 11, 11R, 11S, 32C, 32D, "
+                "60M, 61, 62F, 62M, 64, 65), 7 non-digit classes at each of the 6 positions, all 10,000 HHMM strings through 13C and 13D, "
+                "all 10,000 offsets with both signs; MT and JSON; distinct_nontrivial = parses of calendar-valid dates (each compared "
+                "for meaning and digits in both representations)" % stride,
+        "samples": s["samples"],
+        "panics_noted_for_C07": s["panics_noted_for_C07"],
+        "exhaustive": tier == "thorough",
+        "exhaustive_scope": "full domain for 30/32A/13D/60F and all times/offsets in both tiers; full domain for all 15 date fields in thorough",
+    }
+    assumptions = ["reference century window 00-49 -> 20yy, 50-99 -> 19yy (documented in swift_utils::parse_date_yymmdd)",
+                   "offsets: hh <= 13 and mm <= 59 must be accepted, hh > 23 or mm > 59 must be rejected, 14..23 unconstrained",
+                   "the typed date is read from the value's Debug rendering (NaiveDate prints as ISO)"]
+    return report("C11", tier, "model_checking", vio, cov, assumptions, t0)
+
+
+CHECKS["C11"] = check_c11
